@@ -54,12 +54,13 @@ TwoOff ==
                  [Default EXCEPT !.seed = a - 1, !.tb = b], [Default EXCEPT !.maxr = a, !.lb = b]}
                 : a \in {-1, 0, 1}, b \in ProbGrid}
 
-RandGridPoint ==
+\* (operators WITH a parameter: TLC evaluates a zero-arity constant definition once and caches it)
+RandGridPoint(i) ==
     P(RandomElement({-1, 0, 1}), RandomElement({-1, 0, 1, 2}), RandomElement({-1, 0, 1, 2}), RandomElement({-1, 0, 1, 2}),
       RandomElement(ProbGrid), RandomElement(ProbGrid), RandomElement(ProbGrid), RandomElement(ProbGrid),
       RandomElement(BOOLEAN))
 \* mostly-accepted points (so that the accepted side is exercised too)
-RandAccepted ==
+RandAccepted(i) ==
     P(RandomElement(0..50), RandomElement(1..6), RandomElement(1..6), RandomElement({1, 2, 6, 64}),
       Num(RandomElement(1..99), 100), Num(RandomElement(1..99), 100), Num(RandomElement(1..99), 100),
       Num(RandomElement(1..99), 100), RandomElement(BOOLEAN))
@@ -68,10 +69,10 @@ PctSweep == {[Default EXCEPT !.rb = Num(k, 100)] : k \in 1..99} \cup {[Default E
             \cup {[Default EXCEPT !.tb = Num(k, 100)] : k \in 1..99} \cup {[Default EXCEPT !.lt = Num(k, 100)] : k \in 1..99}
 
 Cases ==
-    CASE Family = "grid"    -> SetToSeq(OneOff \cup TwoOff) \o [i \in 1..K |-> TLCEval(RandGridPoint)]
+    CASE Family = "grid"    -> SetToSeq(OneOff \cup TwoOff) \o [i \in 1..K |-> TLCEval(RandGridPoint(i))]
       [] Family = "gridall" -> SetToSeq(Grid)
-      [] Family = "main"    -> SetToSeq(OneOff) \o SetToSeq(RandomSubset(IF K < 60 THEN K ELSE 60, TwoOff)) \o [i \in 1..K |-> TLCEval(IF i % 2 = 0 THEN RandGridPoint ELSE RandAccepted)]
-      [] Family = "hist"    -> [i \in 1..K |-> LET p == TLCEval(RandAccepted)
+      [] Family = "main"    -> SetToSeq(OneOff) \o SetToSeq(RandomSubset(IF K < 60 THEN K ELSE 60, TwoOff)) \o [i \in 1..K |-> TLCEval(IF i % 2 = 0 THEN RandGridPoint(i) ELSE RandAccepted(i))]
+      [] Family = "hist"    -> [i \in 1..K |-> LET p == TLCEval(RandAccepted(i))
                                                   q == [p EXCEPT !.seed = p.seed + 1]
                                               IN  <<p, q, p, [p EXCEPT !.fd = ~p.fd], p>>]
       [] Family = "pct"     -> SetToSeq(PctSweep)
